@@ -22,7 +22,9 @@ import vlib, oplog
 
 LEVEL = "proof"
 MODULE = "Sqfs.Props.C14"
-REQUIRED = ["Sqfs.C14.shape_prefix_rejected", "Sqfs.C14.shape_suffix_complete"]
+REQUIRED = ["Sqfs.C14.shape_prefix_rejected", "Sqfs.C14.shape_suffix_complete", "Sqfs.C14.shape_crash_safe",
+            "Sqfs.C14.super_region_invariant", "Sqfs.C14.provisional_fields", "Sqfs.C14.prefix_rejected", "Sqfs.C14.suffix_complete",
+            "Sqfs.C14.suffix_accepted", "Sqfs.C14.crash_safe", "Sqfs.C14.final_super_last", "Sqfs.C14.run_shape"]
 SUPER = 96
 COMPS = {
     # name -> list of -X option strings (None = defaults); the non-default ones make the compressor write its
